@@ -49,6 +49,9 @@ def specs_for(progs, sem, tier, rng):
             if chunk0 and p["name"] in ("vf_split", "vf_split10", "vf_split_vol"):
                 specs.append(psrun.make_spec(p, s, {"kind": "random", "seed": rng.randrange(1 << 30), "penv": 0.6},
                                              name="%s#%stidy" % (p["name"], mode), vdr=mode, files=True, remove_own_tmp=chunk0[:1]))
+            if p["name"] in ("vf_basic", "vf_split"):
+                specs.append(psrun.make_spec(p, s, {"kind": "random", "seed": rng.randrange(1 << 30), "penv": 0.6},
+                                             name="%s#%stmplink" % (p["name"], mode), vdr=mode, files=True, tmp_link=True))
             if p["name"] == "vf_strict_bare":
                 for k in range(2):
                     specs.append(psrun.make_spec(p, s, {"kind": "random", "seed": rng.randrange(1 << 30), "penv": rng.choice([0.3, 0.8])},
